@@ -280,6 +280,18 @@ Section SpecOnBound.
   Qed.
 
   (* all positions supplied: the final call, and it is what S prescribes *)
+  (* the call on the first M positionals and all supplied keywords is what S prescribes when the keyword-supplied
+     positions are exactly k .. M-1 *)
+  Lemma fwd_M : forall M, k <= M -> (forall p, k <= p < M -> In p Q) -> length posK = M - k ->
+    match out_M f k K M with OCall key fpos fkw => fwd_ok sigs (nf_self f) k K key fpos fkw = true | _ => False end.
+  Proof.
+    intros M HM HQ HL. unfold out_M, fwd_ok. rewrite (spec_prefix (nf_self f) M HM HQ HL).
+    rewrite fpos_split by auto. rewrite (list_eqb_refl src_eqb src_eqb_refl).
+    rewrite key_pos_full, key_named_full, skip_self by auto.
+    rewrite (list_eqb_refl src_eqb src_eqb_refl), kw_exact_supplied. reflexivity.
+  Qed.
+
+  (* all positions supplied: the final call *)
   Lemma fwd_full : first_missing f k K = None ->
     match out_full f k K with OCall key fpos fkw => fwd_ok sigs (nf_self f) k K key fpos fkw = true | _ => False end.
   Proof.
@@ -294,10 +306,7 @@ Section SpecOnBound.
       - simpl. rewrite seq_length. reflexivity.
       - intros p Hp. apply in_seq in Hp. rewrite Hall by lia. replace (k <=? p) with true by (symmetry; apply Nat.leb_le; lia). reflexivity.
       - intros p Hp. apply in_seq in Hp. replace (k <=? p) with false by (symmetry; apply Nat.leb_gt; lia). reflexivity. }
-    unfold out_full, fwd_ok. rewrite (spec_prefix (nf_self f) (nf_n f) Hk HQ HL).
-    rewrite fpos_split by auto. rewrite (list_eqb_refl src_eqb src_eqb_refl).
-    rewrite key_pos_full, key_named_full, skip_self by auto.
-    rewrite (list_eqb_refl src_eqb src_eqb_refl), kw_exact_supplied. reflexivity.
+    unfold out_full. apply fwd_M; auto.
   Qed.
 
   Lemma key_pos_exit : forall M,
@@ -313,7 +322,7 @@ Section SpecOnBound.
 
   (* an optional positional omitted: the early exit; inside D it is what S prescribes *)
   Lemma fwd_exit : forall m0, first_missing f k K = Some m0 -> dom_fwd sigs k K = true ->
-    match out_exit f k m0 with OCall key fpos fkw => fwd_ok sigs (nf_self f) k K key fpos fkw = true | _ => False end.
+    match out_exit f k K m0 with OCall key fpos fkw => fwd_ok sigs (nf_self f) k K key fpos fkw = true | _ => False end.
   Proof.
     intros m0 Hfm Hd. destruct (first_missing_some f k K m0 Hok Hb Hfm) as [[Hr Hm] [Hun Hlt]].
     assert (Hkm : k <= m0).
@@ -328,12 +337,10 @@ Section SpecOnBound.
       { intros p Hp. assert (p <> m0) by (intro; subst; contradiction). apply in_Q in Hp. destruct Hp as [Hp _].
         apply in_app_iff. rewrite !in_seq. lia. }
       pose proof (NoDup_incl_length Q_NoDup Hi) as Hle. rewrite app_length, !seq_length in Hle. lia. }
-    unfold dom_fwd, kf02_class in Hd. apply negb_true_iff in Hd.
+    unfold dom_fwd, kf31_class in Hd. apply negb_true_iff in Hd.
     rewrite supplied_positions_eq, posK_length, <- Hn in Hd.
     replace (k + length Q <? nf_n f) with true in Hd by (symmetry; apply Nat.ltb_lt; exact Hlen).
-    cbn [andb] in Hd. apply orb_false_iff in Hd. destruct Hd as [Hd1 Hd2].
-    apply negb_false_iff in Hd1. fold kwK in Hd1.
-    assert (EkwK : kwK = []) by (destruct kwK; [reflexivity|discriminate]).
+    cbn [andb] in Hd.
     destruct (spec_forward sigs false k K) as [x|] eqn:Esp; [|discriminate].
     pose proof (spec_some_prefix false x Esp) as HQiff.
     assert (Em : m0 = k + length Q).
@@ -341,10 +348,7 @@ Section SpecOnBound.
       - apply Hm0. apply HQiff. lia.
       - assert (In (k + length Q) Q) by (apply HQ; lia). apply HQiff in H. lia. }
     assert (HL : length posK = m0 - k) by (rewrite posK_length; lia).
-    unfold out_exit, fwd_ok. rewrite (spec_prefix (nf_self f) m0 Hkm HQ HL). fold kwK. rewrite EkwK.
-    rewrite fpos_split by auto. rewrite (list_eqb_refl src_eqb src_eqb_refl).
-    rewrite key_pos_exit, key_named_exit, skip_self by auto.
-    rewrite (list_eqb_refl src_eqb src_eqb_refl). reflexivity.
+    unfold out_exit. apply fwd_M; auto.
   Qed.
 
   Lemma exit_lt : forall m0, first_missing f k K = Some m0 -> supplied_positions sigs k K < npos sigs.
@@ -379,11 +383,18 @@ Section SpecOnBound.
     injection H as <-. auto.
   Qed.
 
-  Lemma drop_outside : kf02_class sigs k K = true ->
-    exists m0, first_missing f k K = Some m0 /\
-      exists x, In x K /\ forall p, p < m0 -> nf_psrc f k p <> SKw x.
+  (* a name of a non-strict position is not among the forwarded keywords *)
+  Lemma posname_not_kw : forall p, nf_sl f <= p < nf_n f -> ~ In (nf_nm f p) (kw_supplied f K).
   Proof.
-    intro Hc. unfold kf02_class in Hc. apply andb_true_iff in Hc. destruct Hc as [Hc1 Hc2].
+    intros p Hp Hin. apply (ok_disj f Hok p Hp). unfold kw_supplied in Hin. apply in_app_iff in Hin. apply in_app_iff.
+    destruct Hin as [Hin|Hin]; auto. right. apply filter_In in Hin. tauto.
+  Qed.
+
+  Lemma drop_outside : kf31_class sigs k K = true ->
+    exists m0, first_missing f k K = Some m0 /\
+      exists x, In x K /\ ~ In x (kw_supplied f K) /\ forall p, p < m0 -> nf_psrc f k p <> SKw x.
+  Proof.
+    intro Hc. unfold kf31_class in Hc. apply andb_true_iff in Hc. destruct Hc as [Hc1 Hhole].
     rewrite supplied_positions_eq, posK_length, <- Hn in Hc1. apply Nat.ltb_lt in Hc1.
     assert (Hk : k <= nf_n f) by apply (b_k f k K Hb).
     destruct (first_missing f k K) as [m0|] eqn:Efm.
@@ -397,40 +408,33 @@ Section SpecOnBound.
     { intros p Hp. apply in_Q. split; [lia|]. apply Hlt. lia. }
     assert (Hm0 : ~ In m0 Q).
     { intro H. apply in_Q in H. destruct H as [_ H]. congruence. }
-    apply orb_true_iff in Hc2. destruct Hc2 as [Hkw'|Hhole].
-    - (* a keyword-only argument is supplied *)
-      fold kwK in Hkw'. destruct kwK as [|x l] eqn:EkwK; [discriminate|].
-      assert (Hx : In x kwK) by (rewrite EkwK; left; reflexivity).
-      unfold kwK in Hx. apply filter_In in Hx. destruct Hx as [HxK Hxn]. apply negb_true_iff in Hxn.
-      exists x. split; auto. intros p Hp E. apply psrc_kw_inv in E. destruct E as [Hkp ->].
-      destruct (Q_kwpos p (HQ p (conj Hkp Hp))) as [[A _] _]. destruct (Hpos p A) as [E' _]. congruence.
-    - (* a hole: some keyword names a positional beyond the first omitted one *)
-      assert (Hnone : spec_forward sigs false k K = None) by (destruct (spec_forward sigs false k K); [discriminate|reflexivity]).
-      rewrite spec_forward_unfold in Hnone.
-      destruct (forallb (fun o : option nat => match o with Some _ => true | None => false end) (map F (seq k (length posK)))) eqn:Ef; [discriminate|].
-      assert (Hj : exists j, k <= j < k + length Q /\ ~ In j Q).
-      { destruct (forallb_false_exists _ _ Ef) as [o [Ho Hof]]. apply in_map_iff in Ho. destruct Ho as [j [<- Hj]].
-        apply in_seq in Hj. rewrite posK_length in Hj. exists j. split; auto. intro Hin. rewrite (F_in j Hin) in Hof. discriminate. }
-      destruct Hj as [j [Hjr HjQ]].
-      destruct (existsb (fun p => m0 <=? p) Q) eqn:Eex.
-      + apply existsb_exists in Eex. destruct Eex as [p [HpQ Hple]]. apply Nat.leb_le in Hple.
-        assert (Hpm : m0 < p) by (destruct (Nat.eq_dec p m0); [subst; contradiction|lia]).
-        destruct (Q_kwpos p HpQ) as [[A _] HK]. exists (nf_nm f p). split; auto.
-        intros p' Hp' E. apply psrc_kw_inv in E. destruct E as [Hkp' E].
-        destruct (Q_kwpos p' (HQ p' (conj Hkp' Hp'))) as [[A' _] _].
-        assert (p = p') by (apply (ok_inj f Hok); auto). lia.
-      + exfalso. assert (Hall : forall p, In p Q -> p < m0).
-        { intros p Hp. destruct (Nat.lt_ge_cases p m0); auto. exfalso.
-          assert (existsb (fun p => m0 <=? p) Q = true).
-          { apply existsb_exists. exists p. split; auto. apply Nat.leb_le. lia. }
-          congruence. }
-        assert (Hi1 : incl Q (seq k (m0 - k))).
-        { intros p Hp. apply in_seq. specialize (Hall p Hp). apply in_Q in Hp. lia. }
-        pose proof (NoDup_incl_length Q_NoDup Hi1) as L1. rewrite seq_length in L1.
-        assert (Hi2 : incl (seq k (m0 - k)) Q).
-        { intros p Hp. apply in_seq in Hp. apply HQ. lia. }
-        pose proof (NoDup_incl_length (seq_NoDup (m0 - k) k) Hi2) as L2. rewrite seq_length in L2.
-        apply HjQ. apply HQ. lia.
+    (* a hole: some keyword names a positional beyond the first omitted one *)
+    assert (Hnone : spec_forward sigs false k K = None) by (destruct (spec_forward sigs false k K); [discriminate|reflexivity]).
+    rewrite spec_forward_unfold in Hnone.
+    destruct (forallb (fun o : option nat => match o with Some _ => true | None => false end) (map F (seq k (length posK)))) eqn:Ef; [discriminate|].
+    assert (Hj : exists j, k <= j < k + length Q /\ ~ In j Q).
+    { destruct (forallb_false_exists _ _ Ef) as [o [Ho Hof]]. apply in_map_iff in Ho. destruct Ho as [j [<- Hj]].
+      apply in_seq in Hj. rewrite posK_length in Hj. exists j. split; auto. intro Hin. rewrite (F_in j Hin) in Hof. discriminate. }
+    destruct Hj as [j [Hjr HjQ]].
+    destruct (existsb (fun p => m0 <=? p) Q) eqn:Eex.
+    + apply existsb_exists in Eex. destruct Eex as [p [HpQ Hple]]. apply Nat.leb_le in Hple.
+      assert (Hpm : m0 < p) by (destruct (Nat.eq_dec p m0); [subst; contradiction|lia]).
+      destruct (Q_kwpos p HpQ) as [[A _] HK]. exists (nf_nm f p). split; auto. split; [apply posname_not_kw; exact A|].
+      intros p' Hp' E. apply psrc_kw_inv in E. destruct E as [Hkp' E].
+      destruct (Q_kwpos p' (HQ p' (conj Hkp' Hp'))) as [[A' _] _].
+      assert (p = p') by (apply (ok_inj f Hok); auto). lia.
+    + exfalso. assert (Hall : forall p, In p Q -> p < m0).
+      { intros p Hp. destruct (Nat.lt_ge_cases p m0); auto. exfalso.
+        assert (existsb (fun p => m0 <=? p) Q = true).
+        { apply existsb_exists. exists p. split; auto. apply Nat.leb_le. lia. }
+        congruence. }
+      assert (Hi1 : incl Q (seq k (m0 - k))).
+      { intros p Hp. apply in_seq. specialize (Hall p Hp). apply in_Q in Hp. lia. }
+      pose proof (NoDup_incl_length Q_NoDup Hi1) as L1. rewrite seq_length in L1.
+      assert (Hi2 : incl (seq k (m0 - k)) Q).
+      { intros p Hp. apply in_seq in Hp. apply HQ. lia. }
+      pose proof (NoDup_incl_length (seq_NoDup (m0 - k) k) Hi2) as L2. rewrite seq_length in L2.
+      apply HjQ. apply HQ. lia.
   Qed.
 
 End SpecOnBound.
@@ -508,7 +512,7 @@ Lemma run_entry_out : forall sigs self k K o, all_wf sigs -> sigs <> [] -> all_s
   run_entry sigs self k K = ROut o ->
   exists a r, analyze sigs = inr a /\ let f := nf_of sigs a r in
     nf_self f = self /\ nf_ok f /\ bound f k K
-    /\ o = match first_missing f k K with Some m => out_exit f k m | None => out_full f k K end
+    /\ o = match first_missing f k K with Some m => out_exit f k K m | None => out_full f k K end
     /\ (forall p, nf_sl f <= p < nf_n f -> is_pos_name sigs (nf_nm f p) = true /\ name_pos sigs (nf_nm f p) = Some p)
     /\ (forall m, In m (nf_kr f ++ nf_ko f) -> is_pos_name sigs m = false).
 Proof.
@@ -533,8 +537,8 @@ Proof.
   destruct (run_entry_out sigs self k K o Hwf Hne Hs H) as [a [r [Ea [Hself [Hok [Hb [Ho [Hpos Hkw]]]]]]]].
   set (f := nf_of sigs a r) in *. rewrite <- Hself.
   destruct (first_missing f k K) as [m0|] eqn:Efm.
-  - pose proof (fwd_exit sigs f k K Hok Hb eq_refl Hpos Hkw m0 Efm Hd) as G. rewrite Ho. unfold out_exit in *.
+  - pose proof (fwd_exit sigs f k K Hok Hb eq_refl Hpos Hkw m0 Efm Hd) as G. rewrite Ho. unfold out_exit, out_M in *.
     eexists _, _, _. split; [reflexivity|exact G].
-  - pose proof (fwd_full sigs f k K Hok Hb eq_refl Hpos Hkw Efm) as G. rewrite Ho. unfold out_full in *.
+  - pose proof (fwd_full sigs f k K Hok Hb eq_refl Hpos Hkw Efm) as G. rewrite Ho. unfold out_full, out_M in *.
     eexists _, _, _. split; [reflexivity|exact G].
 Qed.
